@@ -7,7 +7,7 @@ contract clause per path.  Obligations are z3 formulas (premises => goal); they 
 What the translation drops: decorators, docstrings, `print(...)`, `x.setflags(...)`, `from __future__` imports.
 Everything else must be translated, otherwise OutOfSubset is raised and the function does not count as under contract.
 """
-import ast, copy, itertools, fractions
+import re, ast, copy, itertools, fractions
 import z3
 
 INT, REAL, BOOL = z3.IntSort(), z3.RealSort(), z3.BoolSort()
@@ -1526,12 +1526,31 @@ class Engine:
                 raise OutOfSubset('for over %r' % (it,))
         # 0. the havoc at the head of the arbitrary iteration gives every array name that the body re-binds its OWN fresh object:
         # sound only if, wherever control reaches the head, such a name does not share its object with another name
+        # A name that every iteration re-binds to a fresh value before it is read, that the invariant does not mention and that is not
+        # used after the loop, is dead at the head: sharing an object with it is harmless (`W = W1` at the end of a body that starts
+        # the next round with `W1 = np.zeros(...)`).
+        inv_src = ' '.join(src for _, src in spec['inv'])
+        end_line = max(getattr(x, 'end_lineno', 0) or 0 for x in ast.walk(node))
+        used_after = {x.id for x in ast.walk(self.fd) if isinstance(x, ast.Name) and getattr(x, 'lineno', 0) > end_line}
+
+        def dead_at_head(nm):
+            if nm in used_after or re.search(r'\b%s\b' % re.escape(nm), inv_src):
+                return False
+            for stt in node.body:
+                if isinstance(stt, ast.Assign) and len(stt.targets) == 1 and isinstance(stt.targets[0], ast.Name) and stt.targets[0].id == nm \
+                        and not any(isinstance(x, ast.Name) and x.id == nm for x in ast.walk(stt.value)):
+                    return True
+                if any(isinstance(x, ast.Name) and x.id == nm for x in ast.walk(stt)):
+                    return False
+            return False
+        dead = {nm for nm in names if dead_at_head(nm)}
+
         def alias_free(state):
             refs = {}
             for k_, v_ in state.env.items():
-                if isinstance(v_, Ref):
+                if isinstance(v_, Ref) and k_ not in dead:
                     refs.setdefault(v_.oid, []).append(k_)
-            return sorted(k_ for k_ in names if isinstance(state.env.get(k_), Ref) and len(refs[state.env[k_].oid]) > 1)
+            return sorted(k_ for k_ in names if k_ not in dead and isinstance(state.env.get(k_), Ref) and len(refs[state.env[k_].oid]) > 1)
         bad0 = alias_free(st)
         self.obls.append(Obligation('%s/%s/establish/REBOUND-ARRAYS-not-aliased' % (self.c.key, lname), [], z3.BoolVal(not bad0), kind='frame'))
         # 1. establish
@@ -2269,6 +2288,21 @@ def _sb_lemma_Q_from_kernel(eng, st, node):
     return z3.Implies(hyp, to_z3(eng.binop(ast.Div(), QrawB(Bo, c, n), s_, st), REAL) == Qmod(W, c, g, n))
 
 
+def _sb_lemma_ext_B(eng, st, node):
+    """EXTENSIONALITY (Lean: congruence; arrays are functions on the index type, so cellwise-equal matrices are equal): if B1 and B2 agree on
+    every cell in range then QrawB, agg and modsum of them agree for the labels c.  lemma_ext_B(B1, B2, c, n)."""
+    B1 = _term2(eng, st, eng.ev(node.args[0], st))
+    B2 = _term2(eng, st, eng.ev(node.args[1], st))
+    c = _term1i(eng, st, eng.ev(node.args[2], st))
+    n = to_z3(eng.ev(node.args[3], st), INT)
+    x, y, a, b = z3.Ints('x!eb y!eb a!eb b!eb')
+    hyp = z3.ForAll([x, y], z3.Implies(z3.And(x >= 0, x < n, y >= 0, y < n), z3.Select(z3.Select(B1, x), y) == z3.Select(z3.Select(B2, x), y)))
+    concl = z3.And(QrawB(B1, c, n) == QrawB(B2, c, n),
+                   z3.ForAll([a, b], agg(B1, c, a, b, n) == agg(B2, c, a, b, n), patterns=[agg(B1, c, a, b, n)]),
+                   z3.ForAll([x, a], z3.Implies(z3.And(x >= 0, x < n), modsum(B1, c, x, a, n) == modsum(B2, c, x, a, n)), patterns=[modsum(B1, c, x, a, n)]))
+    return z3.Implies(hyp, concl)
+
+
 def _sb_lemma_agg_symm(eng, st, node):
     """LEMMA (Lean: agg_symm): the aggregate of a symmetric matrix is symmetric.  lemma_agg_symm(W, c, n)."""
     W = _term2(eng, st, eng.ev(node.args[0], st))
@@ -2603,7 +2637,7 @@ SPEC_BUILTINS = {
     'dot2': _sb_dot2, 'isperm': _sb_isperm, 'same_object': _sb_same_object, 'unchanged': _sb_unchanged,
     'snapshot': _sb_snapshot, 'argref': _sb_argref, 'lam1': _sb_lam1, 'KCf': _sb_KCf, 'KNf': _sb_KNf, 'result_is_empty': _sb_result_is_empty, 'hopsint': _sb_hopsint, 'lam2': _sb_lam2, 'unique_witness': _sb_unique_witness, 'member': _sb_member, 'dset': _sb_dset(dset), 'rset': _sb_dset(rset), 'wset': _sb_dset(wset), 'cntb': _sb_cntb,
     'modsum': _mk_mod(modsum, 3), 'modsumT': _mk_mod(modsumT, 3), 'degsum': _mk_mod(degsum, 2), 'degsumT': _mk_mod(degsumT, 2), 'agg': _mk_mod(agg, 3),
-    'Qmod': _sb_Qmod, 'walk': _sb_walk, 'isint': (lambda eng, st, node: z3.IsInt(to_z3(eng.ev(node.args[0], st), REAL))), 'sdist': _sb_sdist, 'lemma_walks': _sb_lemma_walks, 'Qrawg': _sb_Qrawg, 'umul': _sb_umul, 'lemma_umul_linear': _sb_lemma_umul_linear, 'QrawB': _mk_mod(QrawB, 1), 'tsum': _mk_specfn(tsum, 1), 'csum': _mk_specfn(csum, 2), 'lemma_modularity': _sb_lemma_modularity, 'lemma_knm_sums': _sb_lemma_knm_sums, 'lemma_relabel': _sb_lemma_relabel, 'lemma_relabel_g': _sb_lemma_relabel_g, 'lemma_agg_compose': _sb_lemma_agg_compose, 'lemma_Q_from_kernel': _sb_lemma_Q_from_kernel, 'lemma_QrawB_def': _sb_lemma_QrawB_def, 'lemma_trace_agg': _sb_lemma_trace_agg, 'lemma_relabel_B': _sb_lemma_relabel_B, 'lemma_agg_compose_B': _sb_lemma_agg_compose_B, 'lemma_Qrawg_def': _sb_lemma_Qrawg_def, 'lemma_agg_compose_g': _sb_lemma_agg_compose_g, 'lemma_qg_from_aggregate': _sb_lemma_qg_from_aggregate, 'lemma_flat_count': _sb_lemma_flat_count, 'unique_count': (lambda eng, st, node: st.ghost['unique_count_last']), 'rounds_to': _sb_rounds_to, 'where_index': _sb_where_index, 'argsort_inverse': _sb_argsort_inverse, 'exists': _sb_exists, 'lemma_tsum_add': _sb_lemma_tsum_add, 'lemma_tsum_int': _sb_lemma_tsum_int, 'lemma_full_offdiag': _sb_lemma_full_offdiag, 'flat_store_rows': (lambda eng, st, node: st.ghost['_flat_store'][0]), 'flat_store_cols': (lambda eng, st, node: st.ghost['_flat_store'][1]), 'flat_store_len': (lambda eng, st, node: st.ghost['_flat_store'][2]), 'lemma_tsum_plus_transpose': _sb_lemma_tsum_plus_transpose, 'lemma_image_count': _sb_lemma_image_count,
+    'Qmod': _sb_Qmod, 'walk': _sb_walk, 'isint': (lambda eng, st, node: z3.IsInt(to_z3(eng.ev(node.args[0], st), REAL))), 'sdist': _sb_sdist, 'lemma_walks': _sb_lemma_walks, 'Qrawg': _sb_Qrawg, 'umul': _sb_umul, 'lemma_umul_linear': _sb_lemma_umul_linear, 'QrawB': _mk_mod(QrawB, 1), 'tsum': _mk_specfn(tsum, 1), 'csum': _mk_specfn(csum, 2), 'lemma_modularity': _sb_lemma_modularity, 'lemma_knm_sums': _sb_lemma_knm_sums, 'lemma_relabel': _sb_lemma_relabel, 'lemma_relabel_g': _sb_lemma_relabel_g, 'lemma_agg_compose': _sb_lemma_agg_compose, 'lemma_ext_B': _sb_lemma_ext_B, 'lemma_Q_from_kernel': _sb_lemma_Q_from_kernel, 'lemma_QrawB_def': _sb_lemma_QrawB_def, 'lemma_trace_agg': _sb_lemma_trace_agg, 'lemma_relabel_B': _sb_lemma_relabel_B, 'lemma_agg_compose_B': _sb_lemma_agg_compose_B, 'lemma_Qrawg_def': _sb_lemma_Qrawg_def, 'lemma_agg_compose_g': _sb_lemma_agg_compose_g, 'lemma_qg_from_aggregate': _sb_lemma_qg_from_aggregate, 'lemma_flat_count': _sb_lemma_flat_count, 'unique_count': (lambda eng, st, node: st.ghost['unique_count_last']), 'rounds_to': _sb_rounds_to, 'where_index': _sb_where_index, 'argsort_inverse': _sb_argsort_inverse, 'exists': _sb_exists, 'lemma_tsum_add': _sb_lemma_tsum_add, 'lemma_tsum_int': _sb_lemma_tsum_int, 'lemma_full_offdiag': _sb_lemma_full_offdiag, 'flat_store_rows': (lambda eng, st, node: st.ghost['_flat_store'][0]), 'flat_store_cols': (lambda eng, st, node: st.ghost['_flat_store'][1]), 'flat_store_len': (lambda eng, st, node: st.ghost['_flat_store'][2]), 'lemma_tsum_plus_transpose': _sb_lemma_tsum_plus_transpose, 'lemma_image_count': _sb_lemma_image_count,
     'frow': (lambda eng, st, node: frow(to_z3(eng.ev(node.args[0], st), INT), to_z3(eng.ev(node.args[1], st), INT))), 'fcol': (lambda eng, st, node: fcol(to_z3(eng.ev(node.args[0], st), INT), to_z3(eng.ev(node.args[1], st), INT))), 'lemma_agg_symm': _sb_lemma_agg_symm, 'lemma_agg_identity': _sb_lemma_agg_identity, 'lemma_q_from_aggregate': _sb_lemma_q_from_aggregate,
     'lemma_masked_degree': _sb_lemma_masked_degree, 'lemma_degree_monotone': _sb_lemma_degree_monotone, 'result': _sb_result, 'raised': _sb_raised, 'shape_is': _sb_shape_is,
 }
